@@ -150,6 +150,13 @@ def judge(case):
     except Exception as e:
         mu.fail("bool-raises/%s" % prof, "bool(solve(%r)) raised %r" % (m, e))
         return mu.result(nontrivial=nontrivial)
+    try:
+        again = [bool(sol), bool(sol)]
+    except Exception as e:
+        again = ["raises %r" % e]
+    if any(a != truth for a in again):
+        mu.fail("truth-value-changes-when-asked-again/%s" % prof, "bool(solve(%r)) was %s, then %r" % (m, truth, again))
+        return mu.result(nontrivial=nontrivial)
     if truth != consistent:
         mu.fail("solvable-flag-wrong/%s" % prof, "bool(solve(%r)) is %s but rank A=%d, rank [A|b]=%d" % (m, truth, rA, rAb))
         return mu.result(nontrivial=nontrivial)
